@@ -8,11 +8,11 @@
   3. the three loops of `make_stats`:
        * `outLoop_eq`   the loop over `output_assemblies.items()` = the model's `mapM`, then two folds (union, dictionary);
        * `perLoop_eq`   the loop that fills `per_assembly_stats` = the model's fold, under the value conversion `perToSrc`.
-  Nothing here mentions the generated terms: the loop bodies enter through hypotheses `∀ x s, body x s = …` that the property file
-  discharges by `rfl`/`simp` after unfolding the generated definition.
+  4. the two generated functions in normal form (`assemblyJunctionSetSrc_eq`, `makeStatsSrc_eq`): the only proofs that unfold the
+     generated definitions.  They go through the loop lemmas of 1.; a loop body enters through a side goal `∀ x s, body x s = …`
+     that is closed by case analysis (`cases`/`split`) + `rfl`, never by spelling out a generated sub-term.
 -/
-import AgpTpf.Model.PyRt
-import AgpTpf.Model.Remap
+import AgpTpf.Gen.Imp
 import AgpTpf.Proofs.C11Stats
 namespace AgpTpf.ImpStats
 open AgpTpf
@@ -210,13 +210,63 @@ theorem makeStats_eq (input : List Scaffold) (outs : List OutAsm) (cuts : Int) :
        .ok { cuts := cuts, breaks := tb.length, joins := tj.length,
              perAssembly := outSets.foldl (perStepM inSets tb tj) [] }) := rfl
 
-/-- the spelling of the source's `junc_key` / `name or "Primary"` expressions -/
-theorem srcKey_eq (name : Option Str) :
-    (match name with | some (c :: cs) => some (lowerStr (c :: cs)) | _ => none) = srcKey name := by
-  unfold srcKey; rcases name with _ | (_ | ⟨c, cs⟩) <;> rfl
+/-! ### 4. the generated functions in normal form -/
 
-theorem srcName_eq (name : Option Str) :
-    (match name with | some (c :: cs) => (c :: cs) | _ => ("Primary".toList : Str)) = srcName name := by
-  unfold srcName; rcases name with _ | (_ | ⟨c, cs⟩) <;> rfl
+/-- `Assembly.fragment_junction_set` as translated: the model's `foldlM` with the same combining step, except that the translator
+    turned the call `scffld.fragment_junction_set()` into ONE parameter `r` that does not depend on the loop variable -/
+theorem assemblyJunctionSetSrc_eq (scs : List Scaffold) (r : R (List Junction)) :
+    Gen.Imp.Assembly_fragment_junction_set scs r
+      = scs.foldlM (fun acc (_ : Scaffold) => do let js ← r; pure (sUnion acc js)) [] := by
+  unfold Gen.Imp.Assembly_fragment_junction_set
+  simp only []
+  rw [forIn_foldlM (fun acc (_ : Scaffold) => do let js ← r; pure (sUnion acc js))]
+  · cases List.foldlM (fun acc (_ : Scaffold) => do let js ← r; pure (sUnion acc js)) [] scs <;> rfl
+  · intro x s; cases r <;> rfl
+
+/-- … which is the model's loop when `r` is the junction set of every scaffold -/
+theorem foldlM_const_eq (scs : List Scaffold) (r : R (List Junction)) (h : ∀ s ∈ scs, s.junctionSet = r)
+    (acc : List Junction) :
+    scs.foldlM (fun acc (_ : Scaffold) => do let js ← r; pure (sUnion acc js)) acc
+      = scs.foldlM (fun acc (s : Scaffold) => do let js ← s.junctionSet; pure (sUnion acc js)) acc := by
+  induction scs generalizing acc with
+  | nil => rfl
+  | cons s scs ih =>
+    rw [List.foldlM_cons, List.foldlM_cons, h s (by simp)]
+    cases r with
+    | error e => rfl
+    | ok js => exact ih (fun s hs => h s (List.mem_cons_of_mem _ hs)) _
+
+/-- `AssemblyStats.make_stats` as translated, for ALL inputs (no hypothesis on the keys): the model's three stages, except that the
+    last loop runs over the DICTIONARY built from `outSets` (`output_junction_sets[name] = junc_set`), not over `outSets` itself, and
+    starts from the `per_assembly_stats` the object already has.  The incoming `self.breaks` / `self.joins` are overwritten. -/
+theorem makeStatsSrc_eq (input : List Scaffold) (outs : List OutAsm) (b0 j0 : Int) (per0 : List (Str × List (Str × Int))) :
+    Gen.Imp.AssemblyStats_make_stats b0 j0 per0 (outItems outs) (junctionsByPrefix input) =
+      (junctionsByPrefix input >>= fun inSets =>
+       C11.outSetsOf outs >>= fun outSets =>
+       let tb := sDiff (C11.unionOf inSets) (C11.unionOf outSets)
+       let tj := sDiff (C11.unionOf outSets) (C11.unionOf inSets)
+       .ok ((tb.length : Int), (tj.length : Int),
+            (outSets.foldl (fun d p => dSet d p.1 p.2) []).foldl (perStepS inSets tb tj) per0)) := by
+  unfold Gen.Imp.AssemblyStats_make_stats
+  cases junctionsByPrefix input with
+  | error e => rfl
+  | ok inSets =>
+    simp only [bind, Except.bind]
+    rw [forIn_foldl (fun acc js => sUnion acc js), inputSet_eq]
+    · simp only []
+      rw [forIn_foldlM outStep, outLoop_eq]
+      · cases C11.outSetsOf outs with
+        | error e => rfl
+        | ok outSets =>
+          simp only [bind, Except.bind]
+          rw [forIn_foldl (perStepS inSets (sDiff (C11.unionOf inSets) (C11.unionOf outSets))
+            (sDiff (C11.unionOf outSets) (C11.unionOf inSets)))]
+          · rfl
+          · -- the body of the last loop, by cases on `name` (None / "" / non-empty), on the `.get` and on the truth of the set
+            rintro ⟨_ | (_ | ⟨c, cs⟩), js⟩ s <;>
+              simp only [perStepS, srcKey, srcName, truthy, Bool.false_eq_true, if_false, if_true, Option.map, Option.getD] <;>
+              split <;> rename_i hd <;> simp only [hd] <;> first | rfl | (split <;> rfl)
+      · intro x s; unfold outStep; cases x.2.junctionSet <;> rfl
+    · intro x s; rfl
 
 end AgpTpf.ImpStats
